@@ -9,6 +9,8 @@ CONSTANTS
   MaxAdds = 4
   MaxEnds = 2
   AtomicAdd = TRUE
+  SplitGet = FALSE
+  RecheckOnStore = TRUE
   StaleTimers = TRUE
 VIEW View
 INVARIANTS TypeOK LatUnique PendingAgree TimerSane
